@@ -275,6 +275,12 @@ def tev(t, ctx):
                 return not (math.isinf(x) or x != x)
             if n == 'is_infinite':
                 return math.isinf(x)
+            if n == 'is_normal':
+                return not (math.isinf(x) or x != x or x == 0.0 or abs(x) < 2.2250738585072014e-308)
+            if n == 'is_subnormal':
+                return x != 0.0 and abs(x) < 2.2250738585072014e-308
+            if n == 'signum':
+                return x if x != x else math.copysign(1.0, x)
             if n == 'is_sign_negative':
                 return math.copysign(1.0, x) < 0
             if n == 'is_sign_positive':
@@ -794,3 +800,87 @@ def check_rejects(prog, rep, rule, key_fn, witnesses, what, ncx=None):
         rep.ok(rule, key, 'cannot return on any of the %d witnesses outside the domain' % shown)
     else:
         rep.undecided(rule, key, 'rejection shown on %d of %d witnesses outside the domain (no certain return on the others)' % (refuted, shown), site_of(f.body), proof=False)
+
+
+KEEP_WHEN_TRUE = ('filter', 'retain', 'take_while')
+DROP_WHEN_TRUE = ('skip_while',)
+
+
+def check_data_filters(prog, rep, rule, entry_keys, finite=(0.0, -2.5, 1.0, 5e-324, 1e300), what='', ncx=None):
+    """every value filter on the way from the entry points (Iterator::filter / take_while / skip_while, Vec::retain with an in-crate
+    closure over f64 values) keeps every finite value: the predicate is read for exact finite witnesses (zero, a negative, a subnormal,
+    a large value); a witness it certainly drops is the violation.  Returns the number of filter sites read."""
+    from .framework import site_of
+    ncx = ncx or NC(prog)
+    pdb = prog.pdb
+    bodies = set()
+    for k in entry_keys:
+        if k in pdb.bodies:
+            bodies |= {b for b in prog.closure(k) if b in pdb.bodies}
+    for k in sorted(bodies):
+        for b_ in pdb.closures_of(k):
+            bodies.add(b_.key)
+    n = 0
+    for k in sorted(bodies):
+        g = prog.func(k)
+        if g is None:
+            continue
+        for c in g.calls():
+            if not c.path or c.path in pdb.bodies:
+                continue
+            s_ = short(c.path)
+            if s_ not in KEEP_WHEN_TRUE + DROP_WHEN_TRUE or not c.args:
+                continue
+            cl = c.args[-1]
+            if not (tag(cl) == 'agg' and cl[1] == 'closure'):
+                continue
+            h = prog.func(cl[2])
+            if h is None:
+                continue
+            at = {a: v for a, v in ncx.atoms(h).items() if v[0] == 'f64' and (_path_root(v[1]) or ('arg', 0))[1] >= 2}
+            # elements of captured data read by position (`(0..n).filter(|&i| x[i] > 0.)`) are values too
+            edges_h, _, _, _ = ncx.info(h)
+            pool = [t for lst in edges_h.values() for _, gd in lst for t in ((gd[2], gd[3]) if gd[0] == 'cmp' else (gd[1],))] + [st.value for st in h.stores()] + list(h.return_values())
+            for t in pool:
+                for z in subterms(t):
+                    if tag(z) == 'index' and tag(_strip(z[1])) in ('upvar', 'arg', 'field') and tag(z[2]) != 'range':
+                        at.setdefault(_nk(z), ('f64', z))
+                    elif _atom_kind(h, z) == 'f64' and (_path_root(z) or ('arg', 0))[1] >= 2:
+                        at.setdefault(_nk(_strip(z)), ('f64', _strip(z)))
+            if not at:
+                continue
+            n += 1
+            rep.touch(k)
+            rep.touch(cl[2])
+            key = '%s:%s:%s' % (rule, short(k), s_)
+            drop_val = s_ in DROP_WHEN_TRUE
+            bad = None
+            unread = False
+            for v in finite:
+                env = {a: v for a in at}
+                ctx = Frame(h, env=env)
+                live = ncx.reachable(h, ctx)
+                vals = []
+                for d in h._defs.get(0, []):
+                    if d[1] not in live:
+                        continue
+                    t = h.rvalue_term(d[3], d[1]) if d[0] == 'assign' else h.call_term(d[2], d[1])
+                    try:
+                        vals.append(tev(t, ctx))
+                    except Uneval:
+                        vals.append(None)
+                if not vals or any(x is None or not isinstance(x, bool) for x in vals):
+                    unread = True
+                    continue
+                if all(x == drop_val for x in vals):
+                    bad = v
+                    break
+            if bad is not None:
+                rep.viol(rule, key, '%s passes its data through %s with a predicate that drops the finite value %r (every such observation is silently left out)%s' % (
+                    short(k), s_, bad, (' ' + what) if what else ''), site_of(g.body))
+            elif unread:
+                rep.undecided(rule, key, 'filter predicate not read for every finite witness', site_of(g.body), proof=False)
+            else:
+                rep.ok(rule, key, 'keeps the %d finite witnesses' % len(finite))
+    rep.ok(rule, '%s:scan' % rule, '%d bodies reachable from the entry points scanned, %d value filters read' % (len(bodies), n))
+    return n
